@@ -39,8 +39,9 @@ type c22Case struct {
 	State  any        `json:"state_at_violation,omitempty"`
 }
 
-var c22Nodes = []string{"n1", "n2", "n3"}
-var c22Pods = []string{"pa", "pb"}
+// names that are prefixes of one another on purpose (n1 / n10, pa / pab): keys are built from them
+var c22Nodes = []string{"n1", "n10", "n2"}
+var c22Pods = []string{"pa", "pab"}
 
 func c22NodeSpec(name, pod string) *sim.NodeSpec {
 	return &sim.NodeSpec{Name: name, Pod: pod, Cores: 4, Memory: 8 << 30, Up: true}
@@ -371,8 +372,8 @@ func TestC22(t *testing.T) {
 		cs.Setup = append(cs.Setup, sim.Op{Kind: "add-pod", Pod: "pa"})
 		have := []string{"pa"}
 		if r.Intn(2) == 0 {
-			cs.Setup = append(cs.Setup, sim.Op{Kind: "add-pod", Pod: "pb"})
-			have = append(have, "pb")
+			cs.Setup = append(cs.Setup, sim.Op{Kind: "add-pod", Pod: "pab"})
+			have = append(have, "pab")
 		}
 		for _, nn := range c22Nodes {
 			if r.Intn(10) < 6 {
